@@ -219,7 +219,61 @@ func (s *SweepingProvider) StopProviding(keys ...mh.Multihash) error
   ghost at before call(Remove): assert($arg0 == keys); $removed = true
   ghost at before call(Delete): assert($arg1 == keys && s.reprovideInterval > 0); $deleted = true
   ghost at call(Delete): $derr = $ret0
+
+# ---- construction and shutdown (C14) ---------------------------------------------
+# Everything New starts is registered for cleanup right after it is started;
+# an error return happens only after cleanup ran over everything registered so
+# far (and the context, once made, was cancelled) and before the run loop is
+# spawned; the run loop is spawned with the wait group incremented.
+func getOpts(opts []Option) (config, error)
+  modifies *
+func (s *SweepingProvider) setCycleStart(resume bool)
+  modifies *
+func (s *SweepingProvider) clearReprovideHistory()
+  modifies *
+func (s *SweepingProvider) run()
+  modifies *
+
+func New(opts ...Option) (*SweepingProvider, error)
+  props C14
+  constructor
+  ghostvar $reg int = 0
+  ghostvar $cleaned bool = false
+  ghostvar $ctxMade bool = false
+  ghostvar $cancelled bool = false
+  ghostvar $spawned bool = false
+  modifies *
+  ensures [error-leaves-nothing-running] imp(result1 != nil, !$spawned && ($reg == 0 || $cleaned) && imp($ctxMade, $cancelled))
+  ensures [success-spawns-the-accounted-loop] imp(result1 == nil, $spawned)
+  ghost at append(cleanupFuncs): $reg = $reg + 1; $cleaned = false
+  ghost at before call(cleanup): assert($arg0 == cleanupFuncs); $cleaned = true
+  ghost at call(WithCancel): $ctxMade = true
+  ghost at call(cancelCtx): $cancelled = true
+  ghost at go(run): assert(wgcount(prov.wg) == 1); $spawned = true
+
+# cleanup runs every registered function (last registered first)
+role f() error in cleanup(funcs []func() error) error
+  modifies *
+func cleanup(funcs []func() error) error
+  props C14
+  ghostvar $ran int = 0
+  ghostvar $nonnil int = 0
+  modifies *
+  loop 0 invariant -1 <= i && i < len(funcs)
+  loop 0 decreases i + 1
+
+# Close (once): the done signal is given under the write side of the guard
+# that handleProvide read-holds around its closed-check and wg.Add (so no Add
+# can follow the signal), the worker pool is closed before waiting, every
+# goroutine of the wait group is waited for, and only then are the owned
+# resources cleaned up.
+funclit 0 in (s *SweepingProvider) Close() error
+  props C14
+  ensures [signal-wait-cleanup] tagged("closed:s.done") && tagged("wgwait:s.wg")
+  ghost at before call(Wait): assert(tagged("closed:s.done") && $poolClosed && !held(s.wgLk))
+  ghostvar $poolClosed bool = false
+  ghost at call(Close): $poolClosed = true
+  ghost at before call(cleanup): assert(tagged("wgwait:s.wg") && $arg0 == s.cleanupFuncs)
+
+# the run loop leaves only on the done signal and reports to the wait group
 @*/
-
-
-
